@@ -3095,3 +3095,39 @@ def merge_early_returns(trees: Dict[str, ast.Module]) -> int:
                     n += 1
                     break
     return n
+
+
+# ------------------------------------------------------------------------------------------------- plain assignments
+def simplify_assignments(trees: Dict[str, ast.Module]) -> int:
+    """Inside functions (and at module level) `x: T = v` is `x = v` (an annotation changes nothing at run time), a bare `x: T` is dropped,
+    and `a = b = v` with v a constant, a name or an empty display is `a = v; b = v`."""
+    n = 0
+    for tree in trees.values():
+        holders = [tree] + [x for x in ast.walk(tree) if isinstance(x, (ast.FunctionDef, ast.AsyncFunctionDef))]
+        for h in holders:
+            for node in ([h] if h is tree else ast.walk(h)):
+                if isinstance(node, ast.ClassDef):
+                    continue
+                for fld in ("body", "orelse", "finalbody"):
+                    block = getattr(node, fld, None)
+                    if not (isinstance(block, list) and block and isinstance(block[0], ast.stmt)):
+                        continue
+                    out = []
+                    for st in block:
+                        if isinstance(st, ast.AnnAssign) and (h is not tree or isinstance(st.target, ast.Name)):
+                            n += 1
+                            if st.value is None:
+                                continue
+                            out.append(ast.copy_location(ast.Assign(targets=[st.target], value=st.value), st))
+                        elif isinstance(st, ast.Assign) and len(st.targets) > 1 and all(isinstance(t, ast.Name) for t in st.targets) \
+                                and (isinstance(st.value, (ast.Constant, ast.Name)) or (isinstance(st.value, (ast.List, ast.Tuple, ast.Dict)) and not getattr(st.value, "elts", getattr(st.value, "keys", None)))):
+                            n += 1
+                            for t in st.targets:
+                                out.append(ast.copy_location(ast.Assign(targets=[t], value=copy.deepcopy(st.value)), st))
+                        else:
+                            out.append(st)
+                    if not out:
+                        out = [ast.copy_location(ast.Pass(), block[0])]
+                    block[:] = out
+        ast.fix_missing_locations(tree)
+    return n
